@@ -453,14 +453,6 @@ ares_status_t ares_sconfig_append(const ares_channel_t   *channel,
     return ARES_ENOMEM; /* LCOV_EXCL_LINE: OutOfMemory */
   }
 
-  if (*sconfig == NULL) {
-    *sconfig = ares_llist_create(ares_free);
-    if (*sconfig == NULL) {
-      status = ARES_ENOMEM; /* LCOV_EXCL_LINE: OutOfMemory */
-      goto fail;            /* LCOV_EXCL_LINE: OutOfMemory */
-    }
-  }
-
   memcpy(&s->addr, addr, sizeof(s->addr));
   s->udp_port = udp_port;
   s->tcp_port = tcp_port;
@@ -478,6 +470,17 @@ ares_status_t ares_sconfig_append(const ares_channel_t   *channel,
     if (status != ARES_SUCCESS) {
       status = ARES_SUCCESS;
       goto fail;
+    }
+  }
+
+  /* Only create the list once there is an entry to put into it, an entry that
+   * was silently ignored must not leave an empty list behind (an empty list
+   * means "no servers" to whoever applies it) */
+  if (*sconfig == NULL) {
+    *sconfig = ares_llist_create(ares_free);
+    if (*sconfig == NULL) {
+      status = ARES_ENOMEM; /* LCOV_EXCL_LINE: OutOfMemory */
+      goto fail;            /* LCOV_EXCL_LINE: OutOfMemory */
     }
   }
 
